@@ -758,7 +758,7 @@ int main()
                 continue;
             }
             NodeP dx = spaces.at(d->second.spid), sx = spaces.at(s->second.spid);
-            if (!g_fixed && (hasWC(dx) || hasWC(sx)))
+            if (op != "csdnu" && !g_fixed && (hasWC(dx) || hasWC(sx)))
             {
                 bad();
                 continue;
